@@ -148,6 +148,15 @@ def merge(results):
         for a, b in r.get("maxdepth", {}).items():
             m["maxdepth"][a] = max(m["maxdepth"].get(a, 0), b)
         m["side_effects"].update(r.get("side_effects", []))
+        if r.get("output_digest") and p["shard"] == 0:
+            m.setdefault("digests", {})[p["label"]] = r["output_digest"]
+    # observable results of the deterministic layers must not depend on hash order / interpreter mode
+    dg = m.get("digests", {})
+    if "main" in dg:
+        for label, d in dg.items():
+            if d != dg["main"]:
+                m["violations"]["%s:result-depends-on-interpreter-mode:%s" % (results[0][2]["prop"] if results and results[0][2] else "?", label)] = {
+                    "count": 1, "witness": {"mode": label}, "detail": {"main": dg["main"], label: d}, "size": 10, "mode": label}
     return m
 
 
@@ -244,6 +253,7 @@ def main(argv):
         "exceptions_by_raise_site": dict(sorted(m["exceptions"].items())),
         "max_recursion_depth": m["maxdepth"],
         "interpreter_modes": sorted(set(m["modes"])),
+        "output_digest_by_mode": m.get("digests", {}),
         "side_effects_seen": sorted(m["side_effects"]),
         "known_findings_reproduced": sorted(known_hit),
         "violating_mechanisms": {k: v["count"] for k, v in sorted(m["violations"].items())},
